@@ -163,9 +163,11 @@ func drive(prop Property, tier, root string, nw, budget int, attach string) int 
 		}
 	}
 	if budget == 0 {
-		budget = 60
+		// budgets are a safety net, not a target: on the unchanged tree every quick tier ends
+		// well inside it; each scenario may use its fair share of what is left
+		budget = 240
 		if tier == "thorough" {
-			budget = 1200
+			budget = 1500
 		}
 	}
 	seed, _ := strconv.Atoi(os.Getenv("VERIF_SEED"))
@@ -254,6 +256,7 @@ func drive(prop Property, tier, root string, nw, budget int, attach string) int 
 			a.Transitions += s.Transitions
 			a.Ops += s.Ops
 			a.NonTrivial += s.NonTrivial
+			a.Pruned += s.Pruned
 			if s.Prefixes > a.Prefixes {
 				a.Prefixes = s.Prefixes
 			}
@@ -348,7 +351,7 @@ func drive(prop Property, tier, root string, nw, budget int, attach string) int 
 		}
 		scen = append(scen, map[string]interface{}{
 			"name": name, "executions": a.Executions, "cases": a.Cases, "states": a.States, "transitions": a.Transitions,
-			"library_ops": a.Ops, "nontrivial": a.NonTrivial, "shard_prefixes": a.Prefixes, "max_depth": a.MaxDepth,
+			"library_ops": a.Ops, "nontrivial": a.NonTrivial, "pruned_at_revisited_state": a.Pruned, "shard_prefixes": a.Prefixes, "max_depth": a.MaxDepth,
 			"outcome_classes": len(a.Outcomes), "outcomes": oc, "complete": complete, "wall_s": round2(a.WallS),
 		})
 		for _, sm := range a.Samples {
